@@ -83,3 +83,31 @@ package ed25519
 //@   modifies nothing
 //@   ensures len(opts.Context) == 0 ==> result == vspec(publicKey, message, sig, variant(*opts), bnil(), 0, opts.ZIP215Verify)
 //@   ensures len(opts.Context) > 0 ==> result == vspec(publicKey, message, sig, variant(*opts), bytesOf(opts.Context), len(opts.Context), opts.ZIP215Verify)
+
+// ---------------- keys and signing (RFC 8032 5.1.5, 5.1.6) ----------------
+
+//@ spec hseed(sk) = sha512(bytesOf(sk[0:32]))
+// secret scalar a: the first 32 octets of SHA-512(seed), little-endian, after clamping
+// (RFC 8032 5.1.5: clear the lowest three bits of the first octet, clear the highest bit of the
+// last octet, set the second highest bit of the last octet)
+//@ spec clamp0(b) = b - b % 8
+//@ spec clamp31(b) = b % 128 + 64 * (1 - (b / 64) % 2)
+//@ spec sec_a(sk) = lea(hseed(sk), 0, 32) - sel(hseed(sk), 0) + clamp0(sel(hseed(sk), 0)) + (clamp31(sel(hseed(sk), 31)) - sel(hseed(sk), 31)) << 248
+//@ spec nonce(sk, f, cb, cl, m) = ite(f == fPure, lea(sha512(bcat(barr(hseed(sk), 32, 32), m)), 0, 64) % L, lea(sha512(bcat(bconst("SigEd25519 no Ed25519 collisions"), bcons(f, bcons(cl, bnil())), cb, barr(hseed(sk), 32, 32), m)), 0, 64) % L)
+
+//@ func NewKeyFromSeed(seed)
+//@   panics len(seed) != 32
+//@   modifies nothing
+//@   ensures len(result) == 64 && fresh(result)
+//@   ensures bytesOf(result[0:32]) == bytesOf(seed[0:32])
+//@   ensures bytesOf(result[32:64]) == encpt(mulB(sec_a(seed) % L))
+
+//@ func sign(privateKey, message, f, c)
+//@   inline writeDom2
+//@   panics len(privateKey) != 64
+//@   requires f == fPure || len(c) <= 255
+//@   modifies nothing
+//@   ensures len(result) == 64 && fresh(result)
+//@   ensures bytesOf(result[0:32]) == encpt(mulB(nonce(privateKey, f, bytesOf(c), len(c), bytesOf(message))))
+//@   ensures le(result[32:64]) < L
+//@   ensures cong(le(result[32:64]), nonce(privateKey, f, bytesOf(c), len(c), bytesOf(message)) + hchal(f, bytesOf(c), len(c), bytesOf(result[0:32]), bytesOf(privateKey[32:64]), bytesOf(message)) * sec_a(privateKey), L)
